@@ -56,7 +56,7 @@ Section Single.
   Notation s' := (snd (clean e o now s0)).
   Notation log := (rev (lg (snd (clean e o now s0)))).
   Definition model_case : case :=
-    Case (lfe e) s0 [RunRec t o (faults e) (cancel_at e) now now (result_code r)]
+    Case (lfe e) s0 [RunRec t o (faults e) (cancel_at e) now now (result_code r) []]
          (map (TEv t) log) (sto s').
 
   Lemma model_under_lock : under_lock None (c_trace model_case) = true.
@@ -127,6 +127,7 @@ Section Single.
   Theorem model_satisfies_spec : spec_ok model_case = true.
   Proof.
     unfold spec_ok. rewrite model_under_lock, model_runs_ok, andb_true_r. cbn [andb].
+    unfold all_fops. cbn [c_runs model_case flat_map rr_fops map app].
     apply forallb_forall. intros k _. apply model_diff_ok.
   Qed.
 
@@ -137,7 +138,7 @@ Section Single.
     { induction l as [|x l IH]; [reflexivity|]. cbn [list_eqb]. rewrite IH, andb_true_r.
       unfold event_eqb. rewrite N.eqb_refl, seqb_refl. destruct (ev_ok x); reflexivity. }
     unfold model_case.
-    cbn [c_runs c_s0 replay]. unfold env_of. cbn [rr_faults rr_cancel c_lfe rr_opts rr_t0 rr_res rr_tid c_trace].
+    cbn [c_runs c_s0 replay rr_fops]. unfold env_of. cbn [rr_faults rr_cancel c_lfe rr_opts rr_t0 rr_res rr_tid c_trace].
     replace (Env (faults e) (cancel_at e) (lfe e)) with e by (destruct e; reflexivity).
     destruct (clean e o now s0) as [r0 st0]. cbn [fst snd]. rewrite N.eqb_refl, proj_single, L. reflexivity.
   Qed.
